@@ -1,8 +1,106 @@
 import Driver.Util
-/-! Driver commands: Engine2 (stub — replaced by the real handler). -/
+import Driver.Engine
+import Slock.Model.Engine2
+/-! Driver command for the record-level lock engine (M-ENGINE stage 2):
+  engine2 <now0> <aofTimeDefault> <op>;<op>;…      one whole operation sequence per line
+ops:  L|U req conn flag lockId key tflag timeout eflag expried count rcount <datahex|->
+      T (one second) | R 0|1 (leader) | S (snapshot) | J (journal records pushed since the last J)
+output: per op, `;`-joined:
+  replies `conn:req:result:lcount:lrcount:lockId:count:rcount:datahex` `,`-joined (`-` if none; datahex `-` = no data);
+  S: per key record `k<key>=<locked>/<waited>/[lockId.depth.expT.req.isAof.aofTime …]/[lockId.req.timeoutT …]/<cell>/<refCount>`
+     joined by `|`, then the counters incl. kc=KeyCount;   J: `ctype.key.lockId.flag.hasData` `,`-joined.
+  A value operation that panics prints `panic`.
+Cross-check on every L/U/T/R: `abs` of the stage-2 state after the op must equal the stage-1 model (Model/Engine.lean) run on
+`abs` of the state before it, replies included — skipped where stage 1 cannot know (the op carries a value frame; a tick off-leader
+while a journalled hold exists). A difference appends ` ABS-MISMATCH` to that op's output.
+-/
 namespace Driver
+open Slock.Engine2
+
+def showReply2 (r : Reply) : String :=
+  showReply r.r ++ ":" ++ (match r.data with | some d => toHex d | none => "-")
+
+def showReplies2 (rs : List Reply) : String :=
+  if rs.isEmpty then "-" else ",".intercalate (rs.map showReply2)
+
+def showCell2 : Option Slock.Value.Cell → String
+  | none => "-"
+  | some c => s!"{toHex c.data}.{c.ctype}.{if c.isAof then 1 else 0}"
+
+def b01 (b : Bool) : String := if b then "1" else "0"
+
+def showKey2 (k : Key) : String :=
+  let hs := " ".intercalate (k.holders.map (fun h => s!"{h.cmd.lockId}.{h.depth}.{showExp h.expT}.{h.cmd.req}.{b01 h.isAof}.{h.aofTime}"))
+  let ws := " ".intercalate (k.waiters.map (fun w => s!"{w.cmd.lockId}.{w.cmd.req}.{w.timeoutT}"))
+  s!"k{k.key}={k.locked}/{b01 k.waited}/[{hs}]/[{ws}]/{showCell2 k.cell}/{k.refCount}"
+
+def showDB2 (db : DB) : String :=
+  "|".intercalate ((Slock.Engine.sortBySeq (·.key) db.keys).map showKey2) ++ "|" ++ showCtr db.ctr ++ s!" kc={db.keyCount}"
+
+def showJournal (js : List JournalRec) : String :=
+  if js.isEmpty then "-" else ",".intercalate (js.map (fun j => s!"{j.ctype}.{j.key}.{j.lockId}.{j.flag}.{b01 j.hasData}"))
+
+def parseCmd2 (ts : List String) : Option (Cmd × Option Bytes) :=
+  match ts.reverse with
+  | d :: rest => do
+    let c ← parseCmd rest.reverse
+    let data ← if d == "-" then some none else (parseHexAux d.toList).map some
+    pure (c, data)
+  | [] => none
+
+structure E2State where
+  db : DB
+  jmark : Nat := 0       -- journal records already printed
+
+def normKeys (d : Slock.Engine.DB) : Slock.Engine.DB := { d with keys := Slock.Engine.sortBySeq (·.key) d.keys }
+
+/-- does any hold of the database carry the journalled bit -/
+def anyAof (db : DB) : Bool := db.keys.any (fun k => k.recs.any (·.isAof))
+
+def crossCheck (pre : DB) (post : DB) (rs : List Reply) (o : Op) : Bool :=
+  let a := abs pre
+  let skip := match o with
+    | .lock c d | .unlock c d => (Slock.Engine2.frameOf c d).isSome
+    | .tick => !pre.leader && anyAof pre
+    | .setLeader _ => false
+  if skip || post.panicked then true
+  else
+    let r1 : Slock.Engine.DB × List Slock.Engine.Reply := match o with
+      | .lock c _ => Slock.Engine.opLock a c
+      | .unlock c _ => Slock.Engine.opUnlock a { c with mgr := pre.hasKey c.key }
+      | .tick => Slock.Engine.opTick a
+      | .setLeader b => ({ a with leader := b }, [])
+    decide (normKeys r1.1 = normKeys (abs post)) && decide (r1.2 = rs.map (·.r))
+
+def engine2Op (st : E2State) (op : String) : Option (E2State × String) :=
+  let fin (o : Op) : E2State × String :=
+    let r := step st.db o
+    let s := if r.1.panicked then "panic" else showReplies2 r.2
+    let s := if crossCheck st.db r.1 r.2 o then s else s ++ " ABS-MISMATCH"
+    ({ st with db := r.1 }, s)
+  match (op.splitOn " ").filter (· ≠ "") with
+  | "L" :: ts => do let (c, d) ← parseCmd2 ts; pure (fin (.lock c d))
+  | "U" :: ts => do let (c, d) ← parseCmd2 ts; pure (fin (.unlock c d))
+  | ["T"] => some (fin .tick)
+  | ["R", b] => some (fin (.setLeader (b == "1")))
+  | ["S"] => some (st, showDB2 st.db)
+  | ["J"] => some ({ st with jmark := st.db.aofOut.length }, showJournal (st.db.aofOut.drop st.jmark))
+  | _ => none
+
+def runEngine2 (st : E2State) : List String → List String → Option (List String)
+  | [], acc => some acc.reverse
+  | op :: ops, acc =>
+    match engine2Op st op with
+    | some (s, o) => runEngine2 s ops (o :: acc)
+    | none => none
 
 def handleEngine2 : List String → Option String
+  | "engine2" :: now0 :: aofTime :: rest => do
+    let n ← now0.toNat?
+    let a ← aofTime.toNat?
+    let ops := ((" ".intercalate rest).splitOn ";").filter (· ≠ "")
+    let outs ← runEngine2 { db := DB.init n a } ops []
+    pure (";".intercalate outs)
   | _ => none
 
 end Driver
